@@ -271,7 +271,7 @@ def run(shard, rec):
             case = [cfgname, str(fdesc), si, policy, sseed] if shard['kind'] != 'exh' else [cfgname, str(fdesc), si]
             if not rec.wants(case):
                 continue
-            w = sim.World(m, t, no_prss, seed=sseed, policy=policy, clear_caches=False).run(make_program(fdesc, spec))
+            w = sim.World(m, t, no_prss, seed=sseed, policy=policy, clear_caches=False).run(make_program(fdesc, spec), cpu_seconds=90)
             rec.count('programs_run')
             if holder['lifted']:
                 rec.count('lifted_programs_run')
@@ -281,7 +281,7 @@ def run(shard, rec):
             feats = {'lifted': holder['lifted'], 'char2': char2, 'prime': prime}
             if res is None:
                 errs = ' '.join(w.error_summaries()[:2]) + ' '.join(str(r) for r in w.results() if r[0] == 'EXC')
-                ec = 'to_bits-unsupported-field' if 'Binary field or prime field required' in errs else ('step-limit' if w.status == 'STEP-LIMIT' else 'other')
+                ec = 'to_bits-unsupported-field' if 'Binary field or prime field required' in errs else ('step-limit' if w.status in ('STEP-LIMIT', 'CPU-LIMIT') else 'other')
                 rec.violation(f'{what}: run did not complete {w.status} {errs[:200]}', dict(feats, mechanism='no-completion', error_class=ec,
                                                                                          has_bits_rt=any(st[0] == 'bits_rt' for st in spec['steps'])), wit, case=case)
                 continue
